@@ -11,7 +11,7 @@ from ..check import Variant
 from ..effects import Effects
 from ..loader import AnalysisError, Program, dotted, find_func_for_node, norm, parent
 from . import common as C
-from .flow import IntegrateFacts
+from .flow import DENSITY_CALL, IntegrateFacts
 
 ID = 'C12'
 TECHNIQUE = ('who-may-read inventory of the stored wind list, shape + effect check of the sorted view, reaching '
@@ -68,42 +68,16 @@ def run(prog: Program, rep, thorough: bool) -> None:
     if wp is None or not wp.is_property:
         raise AnalysisError('Shot.winds property vanished')
     rep.saw(wp)
-    rets = [r for r in ast.walk(wp.node) if isinstance(r, ast.Return)]
-    ok, why = False, ''
-    if len(rets) == 1:
-        v = rets[0].value
-        inner = v.args[0] if isinstance(v, ast.Call) and (dotted(v.func) or '') == 'tuple' and len(v.args) == 1 else v
-        if isinstance(inner, ast.Call) and (dotted(inner.func) or '') == 'sorted' and len(inner.args) == 1 \
-                and norm(inner.args[0]) == f'{wp.positional[0]}._winds':
-            key = next((k.value for k in inner.keywords if k.arg == 'key'), None)
-            rev = next((k.value for k in inner.keywords if k.arg == 'reverse'), None)
-            if rev is not None and not (isinstance(rev, ast.Constant) and rev.value is False):
-                why = 'sorted descending'
-            elif isinstance(key, ast.Lambda) and key.args.args:
-                p = key.args.args[0].arg
-                b = key.body
-                txt = norm(b)
-                if txt in (f'{p}.until_distance.raw_value', f'{p}.until_distance._value', f'float({p}.until_distance)'):
-                    ok = True
-                elif isinstance(b, ast.BinOp) and isinstance(b.op, ast.RShift) and norm(b.left) == f'{p}.until_distance' \
-                        and C.unit_of_expr(prog, cond, b.right) is not None and C.dimension_of_unit(
-                            prog, C.unit_of_expr(prog, cond, b.right)) == 'Distance':
-                    ok = True
-                elif isinstance(b, ast.Call) and norm(b.func) == f'{p}.until_distance.get_in' and len(b.args) == 1 \
-                        and C.unit_of_expr(prog, cond, b.args[0]) is not None:
-                    ok = True
-                elif txt == f'{p}.until_distance':
-                    ok = True      # quantities order by magnitude (C13.R2)
-                else:
-                    why = f'sort key `{txt}` is not a display-independent magnitude of until_distance'
-            else:
-                why = 'no key function'
-        else:
-            why = f'returns `{norm(v)[:60]}`'
+    verdict = _sorted_view_by_evaluation(prog, shot_c, wp)
+    if verdict is None:
+        ok, why = _sorted_view_by_form(prog, cond, wp)
+        if not ok and not why.startswith('sort'):
+            raise AnalysisError(f'Shot.winds: neither evaluable on the finite family nor of a form the rule reads ({why})')
     else:
-        why = f'{len(rets)} return statements'
+        ok, why = verdict
     if ok:
-        rep.ok('C12.R1', wp.where, f'winds = tuple(sorted(_winds, key = magnitude of until_distance))')
+        rep.ok('C12.R1', wp.where, 'winds = a new sequence of the stored winds ordered by the raw magnitude of until_distance'
+               + (' (all 6 orders of three segments given in three different display units)' if verdict else ''))
     else:
         rep.fail('C12.R1', cond.path, wp.node.lineno, wp.qualname, 'sorted-view', f'Shot.winds: {why}')
     eng = Effects(prog)
@@ -115,57 +89,10 @@ def run(prog: Program, rep, thorough: bool) -> None:
         rep.ok('C12.R1', wp.where, 'reading Shot.winds has no effect on the shot')
 
     # ---- R2 ------------------------------------------------------------------------------------
-    # the wind used by the step: the operand subtracted from the velocity vector
-    sub = None
-    for n in ast.walk(F.loop):
-        if isinstance(n, ast.BinOp) and isinstance(n.op, ast.Sub) and norm(n.left) == F.V and isinstance(n.right, ast.Name):
-            sub = n
-    if sub is None:
-        for n in ast.walk(F.loop):
-            if isinstance(n, ast.Call) and isinstance(n.func, ast.Attribute) and n.func.attr == 'subtract' \
-                    and norm(n.func.value) == F.V and len(n.args) == 1 and isinstance(n.args[0], ast.Name):
-                sub = ast.BinOp(left=n.func.value, op=ast.Sub(), right=n.args[0])
-                sub.lineno = n.lineno
-                sub._parent = getattr(n, '_parent', None)   # type: ignore[attr-defined]
-    if sub is None:
-        rep.fail('C12.R2', tc.path, F.loop.lineno, F.func.qualname, 'air-relative',
-                 f'no `{F.V} - <wind>` in the step: the drag does not see the wind')
-    else:
-        wname = sub.right.id
-        anchor = sub if getattr(sub, '_parent', None) is not None else F.loop.body[0]
-        defs = F.defs_reaching(anchor, wname)
-        init = [d for d in defs if not F.in_loop(d)]
-        inloop = [d for d in defs if F.in_loop(d)]
-        problems = []
-        if len(init) != 1 or 'current_vector()' not in init[0].text():
-            problems.append(f'initial wind is `{init[0].text()[:50] if init else None}`, expected the wind sock\'s first segment')
-        if len(inloop) != 1:
-            problems.append(f'{len(inloop)} in-loop definitions of the wind (expected one refresh): the wind never '
-                            f'switches segment' if not inloop else f'{len(inloop)} in-loop definitions')
-        else:
-            d = inloop[0]
-            v = d.ast.value if isinstance(d.ast, ast.Assign) else None
-            if not (isinstance(v, ast.Call) and isinstance(v.func, ast.Attribute) and v.func.attr == 'vector_for_range'
-                    and [norm(a) for a in v.args] == [f'{F.P}.x']):
-                problems.append(f'refresh is `{d.text()[:60]}`, expected vector_for_range({F.P}.x)')
-            cd = F.cfg.control_dependence()
-            guards = [F.cfg.nodes[t] for t, _l in cd[d.id] if F.cfg.nodes[t] is not F.loop_head]
-            for g in guards:
-                gt = norm(g.ast)
-                recv = norm(v.func.value) if isinstance(v, ast.Call) and isinstance(v.func, ast.Attribute) else 'wind_sock'
-                if gt not in (f'{F.P}.x >= {recv}.next_range', f'{recv}.next_range <= {F.P}.x'):
-                    problems.append(f'the refresh runs only under `{gt[:60]}`')
-            # the refresh precedes the use in the same iteration
-            dom = F.cfg.dominators()
-            un = F.cfg.node_of(anchor)
-            order_ok = un is not None and all(g.id in dom[un.id] for g in guards) if guards else \
-                (un is not None and d.id in dom[un.id])
-            if not order_ok:
-                problems.append('the refresh does not precede the step that uses the wind')
-        if problems:
-            rep.fail('C12.R2', tc.path, sub.lineno, F.func.qualname, 'wind-defs', '; '.join(problems))
-        else:
-            rep.ok('C12.R2', tc.where(sub), f'`{wname}` in {F.V} - {wname}: first segment, then refreshed when x >= next_range')
+    # the wind used by the step, by evaluation of one loop iteration: the velocity update may depend on the wind of
+    # the previous iteration only on paths where x < end of the current segment, otherwise on
+    # wind_sock.vector_for_range(x); a velocity update that depends on neither does not see the wind at all
+    check_wind_in_step(prog, rep, F, 'C12.R2')
     # wind sock transitions
     wsc = prog.cls(C.M_TC, '_WindSock')
     ev = Evaluator(prog)
@@ -194,7 +121,7 @@ def run(prog: Program, rep, thorough: bool) -> None:
     problems = []
     # which transition a path belongs to is decided by evaluating its guards at one point of every ordering of
     # (requested range r vs end of the segment nr) x (k + 1 vs number of segments n): any spelling of the two tests
-    from .c16 import reachable_leaves
+    from .c16 import reachable_leaves, value_at
     for t_ in {t for path, _lf in leaves(tree) for t, _pol in path}:
         if t_.rf is not None and not t_.rf.symbols() <= {'r', 'nr', 'k', 'n'}:
             problems.append(f'depends on {t_!r}')
@@ -208,8 +135,9 @@ def run(prog: Program, rep, thorough: bool) -> None:
             if leaf.kind == 'raise':
                 continue
             h = leaf.state.heap[sock.oid]
-            cur, cache, nxt = h.get(roles['index']), h.get(roles['cache']), h.get(roles['next'])
-            ret = _strip_raise(leaf.value)
+            cur, cache, nxt = (value_at(h.get(roles[r_]), env_) for r_ in ('index', 'cache', 'next'))
+            ret = _strip_raise(value_at(leaf.value, env_))
+            ret = _strip_raise(value_at(ret, env_))
             cases[case] += 1
             if case == 'stay':
                 if not (isinstance(cur, Scalar) and cur.rf.equals(k) and isinstance(ret, SymObj) and ret.path == 'cache'):
@@ -358,6 +286,148 @@ def _sock_roles(init) -> Dict[str, str]:
     if missing:
         raise AnalysisError(f'_WindSock.__init__: cannot identify the attribute(s) holding {sorted(missing)}')
     return roles
+
+
+def _sorted_view_by_evaluation(prog: Program, shot_c, wp) -> Optional[Tuple[bool, str]]:
+    """The getter evaluated on three segments given in every order; the until-distances are in three display units chosen
+    so that ordering by the displayed number differs from ordering by magnitude.  None when the evaluator cannot read
+    the getter."""
+    import itertools
+    wind_c = prog.cls(C.M_COND, 'Wind')
+    specs = [(600, 'Meter'), (1200, 'Inch'), (2400, 'Yard')]          # raw inches, display unit
+    n_ok = 0
+    for perm in itertools.permutations(range(3)):
+        ev = Evaluator(prog, hooks=C.no_wrap_hooks())
+        st = State()
+        winds = []
+        for k in perm:
+            raw, unit = specs[k]
+            winds.append(ev.new_inst(st, wind_c, {'until_distance': C.mk_quantity(ev, st, prog, 'Distance', raw, unit),
+                                                  'velocity': C.mk_quantity(ev, st, prog, 'Velocity', f'v{k}', 'FPS'),
+                                                  'direction_from': C.mk_quantity(ev, st, prog, 'Angular', f'd{k}', 'Radian'),
+                                                  '$k': Scalar(k)}))
+        stored = ev.new_list(st, list(winds))
+        shot = ev.new_inst(st, shot_c, {'_winds': stored})
+        try:
+            tree, _st = ev.run_func(wp, {wp.positional[0]: shot}, st)
+        except Undecided:
+            return None
+        for _path, leaf in leaves(tree):
+            if leaf.kind != 'return' or leaf.value is None or isinstance(leaf.value, Cond):
+                return None
+            its = ev.items(leaf.state, leaf.value)
+            if its is None or not all(isinstance(i_, Inst) for i_ in its):
+                return None
+            got = [leaf.state.heap[i_.oid].get('$k') for i_ in its]
+            if not all(isinstance(g, Scalar) for g in got):
+                return None
+            got = [int(g.rf.const_value()) for g in got]
+            if got != [0, 1, 2]:
+                return False, (f'three segments ending at 600, 1200 and 2400 inches given in the order {list(perm)} come back in '
+                               f'the order {got}, not by increasing until-distance')
+            now = [int(leaf.state.heap[i_.oid]['$k'].rf.const_value()) for i_ in ev.items(leaf.state, stored)]
+            if now != list(perm):
+                return False, f'reading the view reorders the stored list ({list(perm)} -> {now})'
+            n_ok += 1
+    return (True, '') if n_ok else None
+
+
+def _sorted_view_by_form(prog: Program, cond, wp) -> Tuple[bool, str]:
+    rets = [r for r in ast.walk(wp.node) if isinstance(r, ast.Return)]
+    ok, why = False, ''
+    if len(rets) == 1:
+        v = rets[0].value
+        inner = v.args[0] if isinstance(v, ast.Call) and (dotted(v.func) or '') == 'tuple' and len(v.args) == 1 else v
+        if isinstance(inner, ast.Call) and (dotted(inner.func) or '') == 'sorted' and len(inner.args) == 1 \
+                and norm(inner.args[0]) == f'{wp.positional[0]}._winds':
+            key = next((k.value for k in inner.keywords if k.arg == 'key'), None)
+            rev = next((k.value for k in inner.keywords if k.arg == 'reverse'), None)
+            if rev is not None and not (isinstance(rev, ast.Constant) and rev.value is False):
+                why = 'sorted descending'
+            elif isinstance(key, ast.Lambda) and key.args.args:
+                p = key.args.args[0].arg
+                b = key.body
+                txt = norm(b)
+                if txt in (f'{p}.until_distance.raw_value', f'{p}.until_distance._value', f'float({p}.until_distance)'):
+                    ok = True
+                elif isinstance(b, ast.BinOp) and isinstance(b.op, ast.RShift) and norm(b.left) == f'{p}.until_distance' \
+                        and C.unit_of_expr(prog, cond, b.right) is not None and C.dimension_of_unit(
+                            prog, C.unit_of_expr(prog, cond, b.right)) == 'Distance':
+                    ok = True
+                elif isinstance(b, ast.Call) and norm(b.func) == f'{p}.until_distance.get_in' and len(b.args) == 1 \
+                        and C.unit_of_expr(prog, cond, b.args[0]) is not None:
+                    ok = True
+                elif txt == f'{p}.until_distance':
+                    ok = True      # quantities order by magnitude (C13.R2)
+                else:
+                    why = f'sort key `{txt}` is not a display-independent magnitude of until_distance'
+            else:
+                why = 'no key function'
+        else:
+            why = f'returns `{norm(v)[:60]}`'
+    else:
+        why = f'{len(rets)} return statements'
+    return ok, why
+
+
+def check_wind_in_step(prog: Program, rep, F: IntegrateFacts, rule: str) -> None:
+    from .c01 import loop_iteration, wind_roles
+    tc = F.mod
+    fn = F.func
+    sock, wname = wind_roles(F)
+    init_defs = [n for n in ast.walk(fn.node) if isinstance(n, (ast.Assign, ast.AnnAssign)) and n.value is not None
+                 and isinstance(n.value, ast.Call) and isinstance(n.value.func, ast.Attribute)
+                 and norm(n.value.func.value) == sock and not F._inside(n, F.loop)]
+    ev = Evaluator(prog, hooks={'symcall': lambda ev_, fv, args, kwargs, st: (Tup([S('rho'), S('a')])
+                                                                             if fv.path.endswith('.' + DENSITY_CALL) else None),
+                                'call:_calculate_by_curve_and_mach_list': lambda ev_, func, args, kwargs, st, sv: S('Cd'),
+                                **C.no_wrap_hooks()},
+                   opaque={'create_trajectory_row', 'spin_drift'})
+    ctx = Ctx(tc, fn, None, 0)
+    st, selfv, tree, _w = loop_iteration(prog, F, ev, ctx)
+    x, nr = A.sym('x'), A.sym('wind_sock.next_range')
+    problems = []
+    n_paths = old_paths = new_paths = 0
+    for path, leaf in leaves(tree):
+        if leaf.kind == 'raise':
+            continue
+        v1 = leaf.state.env.get(F.V)
+        if not isinstance(v1, Inst):
+            raise AnalysisError(f'velocity after one step is {v1!r}')
+        comps = [leaf.state.heap[v1.oid].get(c) for c in 'xyz']
+        syms = set()
+        for c in comps:
+            for _pp, lf in cond_leaves(c):
+                if isinstance(lf, Scalar):
+                    syms |= lf.rf.symbols()
+                    for at in lf.rf.all_atoms():
+                        syms.add(repr(at))
+        n_paths += 1
+        uses_old = bool(syms & {'wx', 'wy', 'wz'})
+        refreshed = {s_ for s_ in syms if 'vector_for_range(' in s_}
+        if refreshed:
+            new_paths += 1
+            bad_arg = [s_ for s_ in refreshed if 'vector_for_range(x)' not in s_]
+            if bad_arg:
+                problems.append(f'the wind is asked for at `{bad_arg[0][:60]}`, not at the current down-range distance x')
+        if uses_old:
+            old_paths += 1
+            short = any((t.kind == 'pos' and t.rf is not None and t.rf.equals(nr - x) and pol)
+                        or (t.kind == 'nonneg' and t.rf is not None and t.rf.equals(x - nr) and not pol) for t, pol in path)
+            if not short:
+                problems.append('the step can run on the wind of the previous iteration although x has reached the end of the '
+                                'current segment (the refresh is not guarded by position only)')
+        if not uses_old and not refreshed:
+            problems.append('the velocity update depends on no wind at all: the drag does not see the wind')
+    if n_paths == 0:
+        raise AnalysisError('_integrate: no non-raising path through the loop body')
+    if old_paths and not any('current_vector()' in norm(d.value) or 'vector_for_range(' in norm(d.value) for d in init_defs):
+        raise AnalysisError('_integrate: the wind before the first refresh is not taken from the wind sock in a way the rule reads')
+    if problems:
+        rep.fail(rule, tc.path, F.loop.lineno, fn.qualname, 'wind-defs', '; '.join(sorted(set(problems))[:3]))
+    else:
+        rep.ok(rule, tc.where(F.loop), f'{n_paths} paths: the step runs on the previous wind only while x < end of the segment '
+               f'({old_paths}), otherwise on wind_sock.vector_for_range(x) ({new_paths})')
 
 
 def _strip_raise(v):
